@@ -10,7 +10,7 @@
  * Everything that is not a pool slot (the tracker's own table array, stdio, this harness) goes to the real
  * (ASan) allocator, so the table array sits in an exact-size ASan block.
  *
- * State token: {blocks=[never|live|freed,...],level=n,table=[{file=[codes],id=n,line=n,size=n},...]}
+ * State token: {blocks=[never|live|freed,...],level=n,sizes=[allocator-side size of each live block],table=[{file=[codes],id=n,line=n,size=n},...]}
  *   blocks = the allocator-side view of the pool (what the library really obtained / released),
  *   table  = the tracker's private table read through spifmem_verif_malloc_rec(), address -> slot id.
  * The table is compared as a SET: records are listed in the order in which their ids occur in the expected
@@ -66,9 +66,18 @@ static void *hand_out(int t, size_t n, int zero) {
     return s->base;
 }
 
+/* a size no allocator can satisfy: refused with NULL, as libc does (the specification's HugeSizes) */
+#define NG_HUGE(n) ((n) > ((size_t) -1) / 4)
+static size_t size_arg(const char *tok) {          /* -1 = SIZE_MAX, -2 = 2^62, -3 = PTRDIFF_MAX + 1 */
+    long v = vh_int(tok);
+    if (v >= 0) return (size_t) v;
+    return v == -1 ? (size_t) -1 : (v == -2 ? ((size_t) 1 << 62) : ((size_t) 1 << 63));
+}
+
 void *__wrap_malloc(size_t n) {
     int t;
     if (!armed) return __real_malloc(n);
+    if (NG_HUGE(n)) return NULL;
     if (!want_target) { note("unexpected_malloc"); return __real_malloc(n); }
     t = want_target; want_target = 0;
     return hand_out(t, n, 0);
@@ -76,6 +85,7 @@ void *__wrap_malloc(size_t n) {
 void *__wrap_calloc(size_t c, size_t n) {
     int t;
     if (!armed) return __real_calloc(c, n);
+    if (NG_HUGE(c) || NG_HUGE(n) || (n && c > ((size_t) -1) / n)) return NULL;
     if (!want_target) { note("unexpected_calloc"); return __real_calloc(c, n); }
     t = want_target; want_target = 0;
     return hand_out(t, c * n, 1);
@@ -85,6 +95,7 @@ void *__wrap_realloc(void *p, size_t n) {
     if (i) {
         slot_t *s = &slot[i];
         if (!armed) { note("pool_realloc_outside_call"); return NULL; }
+        if (NG_HUGE(n)) return NULL;                /* refused: the old block stays exactly as it is */
         if (s->status != S_LIVE) {             /* stale pointer: libc would be in undefined territory; answer with a stray block */
             void *q = __real_malloc(n ? n : 1);
             if (nstray < 16) stray[nstray++] = q;
@@ -149,7 +160,9 @@ static const char *project(const char *exp_state, vh_sb *out) {
     static int ids[64];
     sb_puts(out, "{blocks=[");
     for (i = 1; i <= nslot; i++) { if (i > 1) sb_putc(out, ','); sb_puts(out, stname(slot[i].status)); }
-    sb_printf(out, "],level=%u,table=[", libast_debug_level);
+    sb_printf(out, "],level=%u,sizes=[", libast_debug_level);
+    for (i = 1; i <= nslot; i++) { if (i > 1) sb_putc(out, ','); sb_int(out, slot[i].status == S_LIVE ? (long) slot[i].size : 0); }
+    sb_puts(out, "],table=[");
     if (cnt > 60) { snprintf(invmsg, sizeof(invmsg), "table.cnt=%lu", (unsigned long) cnt); return invmsg; }
     if (cnt > 0 && !mr->ptrs) return "table.ptrs=NULL_with_cnt>0";
     for (k = 0; k < cnt; k++) {
@@ -225,17 +238,22 @@ static const char *vh_step(const vh_step_t *st, vh_sb *ret, vh_sb *state) {
         void *p;
         file = file_arg(st->args[2]);
         want_target = (int) vh_int(st->args[0]);
-        armed = 1; p = spifmem_malloc(file, (unsigned long) vh_int(st->args[3]), (size_t) vh_int(st->args[1])); armed = 0;
+        armed = 1; p = spifmem_malloc(file, (unsigned long) vh_int(st->args[3]), size_arg(st->args[1])); armed = 0;
         ret_ptr(ret, p);
     } else if (OP("calloc")) {
-        unsigned char *p; size_t n = (size_t) (vh_int(st->args[1]) * vh_int(st->args[2])), k;
+        unsigned char *p; size_t n = vh_int(st->args[1]) < 0 ? 0 : (size_t) (vh_int(st->args[1]) * vh_int(st->args[2])), k;
         file = file_arg(st->args[3]);
         want_target = (int) vh_int(st->args[0]);
-        armed = 1; p = (unsigned char *) spifmem_calloc(file, (unsigned long) vh_int(st->args[4]), (size_t) vh_int(st->args[1]), (size_t) vh_int(st->args[2])); armed = 0;
+        armed = 1; p = (unsigned char *) spifmem_calloc(file, (unsigned long) vh_int(st->args[4]), size_arg(st->args[1]), (size_t) vh_int(st->args[2])); armed = 0;
         ret_ptr(ret, p);
         if (p && slot_of(p)) for (k = 0; k < n; k++) if (p[k]) inv = "calloc_block_not_zeroed";
     } else if (OP("strdup")) {
-        char src[64], *p; int n = (int) vh_int(st->args[1]), k;
+        char lit[64], *src = lit, *p; int n = (int) vh_int(st->args[1]), k;
+        int from = st->nargs > 4 ? (int) vh_int(st->args[4]) : 0, off = st->nargs > 5 ? (int) vh_int(st->args[5]) : 0;
+        if (from > 0) {                  /* the text sits inside a live tracked block that is larger than the text */
+            if (slot[from].status != S_LIVE || slot[from].size < (size_t) (n + 1 + off)) return "strdup_source_block_unusable";
+            src = (char *) slot[from].base + off;
+        }
         for (k = 0; k < n; k++) src[k] = (char) ('a' + k % 26);
         src[n] = 0;
         file = file_arg(st->args[2]);
@@ -244,7 +262,7 @@ static const char *vh_step(const vh_step_t *st, vh_sb *ret, vh_sb *state) {
         ret_ptr(ret, p);
         if (p && slot_of(p) && strcmp(p, src)) inv = "strdup_contents_differ";
     } else if (OP("realloc")) {
-        long a = vh_int(st->args[0]); void *p, *r; size_t n = (size_t) vh_int(st->args[1]);
+        long a = vh_int(st->args[0]); void *p, *r; size_t n = size_arg(st->args[1]);
         int t = (int) vh_int(st->args[2]), was_foreign = 0;
         file = file_arg(st->args[3]);
         if (a == 0) p = NULL;
